@@ -204,8 +204,12 @@ S_Check(k) ==
   /\ ProcAlive /\ pc[k] = "check"
   /\ IF ~flag[k] THEN pc' = [pc EXCEPT ![k] = "post"] /\ UNCHANGED infos
      ELSE /\ infos' = [infos EXCEPT ![k] = infos[k] + 1]
-          /\ pc' = [pc EXCEPT ![k] = IF kind[k] = "lim" /\ iters[k] >= MaxIter THEN "post"
-                                     ELSE IF iters[k] >= MaxIter THEN "spin" ELSE "work"]
+          \* a limited search ends when its depth is exhausted; an unlimited one normally keeps searching until
+          \* stopped, but it too runs out of depth eventually (255 iterations - at once when every line is an
+          \* immediate draw), so it may end by itself as well
+          /\ \/ pc' = [pc EXCEPT ![k] = IF kind[k] = "lim" /\ iters[k] >= MaxIter THEN "post"
+                                        ELSE IF iters[k] >= MaxIter THEN "spin" ELSE "work"]
+             \/ (kind[k] = "inf" /\ pc' = [pc EXCEPT ![k] = "post"])
   /\ UNCHANGED <<flag, iters, saved, bests>> /\ SUnch
 
 \* an unlimited search that has exhausted the model's iterations keeps searching until stopped
